@@ -1,7 +1,7 @@
 """check configuration for C12 (loaded by lib/zvprops.py)"""
 
 PROP = {'gen_tables': ['BwsFacts'], 'race': True,
- 'rule': 'ops: (1) seq, exhaustive — sizes 1..3 (quick) / {1,2,3,5,8} (thorough) × every history of length ≤ 4 (5) over {empty write, 1 byte, '
+ 'rule': 'ops: (1) seq, exhaustive — sizes 1..3 × every history of length ≤ 4 (quick) / sizes 1..3 × length ≤ 5 and sizes 5, 8 × length ≤ 4 (thorough) over {empty write, 1 byte, '
          '2 bytes, exactly the size, size+1, Sync, tick, Stop} on a reliable sink; (2) seq, random — sizes 1…4096 and the default, write lengths '
          '0 / exactly the free space / free±1 / the size / larger than the buffer, scripted failing sinks (short counts with and without error, '
          'failing WS.Sync), Stop in the middle, ticks through a harness Clock; every history is closed by Stop and Sync on both sides; '
